@@ -1307,6 +1307,15 @@ func (e *Entry) FixChoice() {
 	for _, ce := range e.Dir {
 		ce.FixChoice()
 	}
+	// The input and output of an rpc or action are not part of Dir.
+	if e.RPC != nil {
+		if e.RPC.Input != nil {
+			e.RPC.Input.FixChoice()
+		}
+		if e.RPC.Output != nil {
+			e.RPC.Output.FixChoice()
+		}
+	}
 }
 
 // ReadOnly returns true if e is a read-only variable (config == false).
